@@ -154,7 +154,7 @@ func ZZ_Step() {
 	script.OnWait = func() {
 		if wait == 0 {
 			wait++
-			rl.line.Set(buf...)
+			rl.line.Set(zzCopy(buf)...)
 			mark := zzverif.IntRange("mark", 0, n)
 			rl.cursor.Set(mark)
 			rl.cursor.SetMark()
@@ -220,3 +220,7 @@ func ZZ_Step() {
 	rl.Readline()
 	zzverif.Reach("returned")
 }
+
+// zzCopy: Line.Set keeps the slice it is given and the editing primitives write into its
+// backing array, so the harness hands over a copy and keeps its own reference intact.
+func zzCopy(rs []rune) []rune { return append([]rune(nil), rs...) }
